@@ -35,3 +35,50 @@ pub(super) fn record(a: StateAccess) {
         }
     });
 }
+
+/// One operation on a reference-counted store of the VM (closure slot map or heap slot map).
+#[derive(Clone, Debug, PartialEq, Eq)]
+pub struct HeapOp {
+    /// b'c': `Machine::closures`, b'h': `Machine::heap`
+    pub space: u8,
+    /// b'A' inserted with refcount 1, b'+' refcount incremented, b'-' refcount decremented, b'F' removed from the store,
+    /// b'U' dereferenced (get_closure / get_closure_mut / BoxLoad / BoxStore / heap closure lookup), b'C' closure marked closed
+    pub op: u8,
+    /// `slotmap::KeyData::as_ffi()` of the handle: generation << 32 | slot index
+    pub key: u64,
+    /// whether the handle named a live object when the operation was attempted
+    pub valid: bool,
+    /// reference count after the operation (0 when `valid` is false)
+    pub rc: u64,
+}
+
+thread_local! {
+    static HEAP_TRACE: RefCell<Option<Vec<HeapOp>>> = const { RefCell::new(None) };
+}
+
+/// Start (or restart) recording heap/closure traffic on this thread.
+pub fn heap_start() {
+    HEAP_TRACE.with(|t| *t.borrow_mut() = Some(Vec::new()));
+}
+
+/// Stop recording heap/closure traffic and return what was recorded.
+pub fn heap_take() -> Vec<HeapOp> {
+    HEAP_TRACE.with(|t| t.borrow_mut().take().unwrap_or_default())
+}
+
+/// Return what was recorded so far and keep recording.
+pub fn heap_drain() -> Vec<HeapOp> {
+    HEAP_TRACE.with(|t| t.borrow_mut().as_mut().map(std::mem::take).unwrap_or_default())
+}
+
+pub(super) fn key_bits(k: slotmap::DefaultKey) -> u64 {
+    slotmap::Key::data(&k).as_ffi()
+}
+
+pub(super) fn record_heap(space: u8, op: u8, key: slotmap::DefaultKey, valid: bool, rc: u64) {
+    HEAP_TRACE.with(|t| {
+        if let Some(v) = t.borrow_mut().as_mut() {
+            v.push(HeapOp { space, op, key: key_bits(key), valid, rc });
+        }
+    });
+}
